@@ -9,6 +9,85 @@ import threading
 
 from . import loader
 
+import _thread
+
+ACTIVE = None  # the Baton currently running threads in this process (at most one)
+_REAL_LOCK = threading.Lock
+_REAL_RLOCK = threading.RLock
+
+
+class _RawSem:
+    """Binary hand-off primitive on a raw lock (never a cooperative lock: it is the scheduler's own mechanism)."""
+
+    def __init__(self):
+        self._l = _thread.allocate_lock()
+        self._l.acquire()
+
+    def acquire(self):
+        self._l.acquire()
+
+    def release(self):
+        self._l.release()
+
+
+class CoopLock:
+    """Wrapper around a real Lock / RLock created by the code under test (or a library).  Outside a simulation it
+    behaves exactly like the real lock.  Inside one, a baton thread that would block on it - because a *parked* thread
+    holds it - yields the baton (to the owner if known) instead of blocking forever, and retries when it runs again."""
+
+    def __init__(self, real):
+        self._real = real
+        self._owner = None
+
+    def acquire(self, blocking=True, timeout=-1):
+        b = ACTIVE
+        me = b.index_of_current() if b is not None else None
+        if me is None or not blocking:
+            ok = self._real.acquire(blocking, timeout) if blocking else self._real.acquire(False)
+            if ok and me is not None:
+                self._owner = me
+            return ok
+        while True:
+            if self._real.acquire(False):
+                self._owner = me
+                return True
+            if not b.yield_blocked(me, self._owner):
+                # nobody else can run: really block (the holder is not one of the simulated threads)
+                ok = self._real.acquire(True, timeout)
+                if ok:
+                    self._owner = me
+                return ok
+
+    def release(self):
+        self._real.release()
+
+    def __enter__(self):
+        self.acquire()
+        return self
+
+    def __exit__(self, *a):
+        self.release()
+
+    def locked(self):
+        return self._real.locked()
+
+    def __getattr__(self, item):  # _is_owned, _release_save, _acquire_restore, _at_fork_reinit ...
+        return getattr(self._real, item)
+
+    def __repr__(self):
+        return f"<CoopLock {self._real!r}>"
+
+
+def install_coop_locks():
+    """Make threading.Lock / threading.RLock return cooperative wrappers (call before importing the code under test).
+    Objects created before this call keep the real classes."""
+    if getattr(threading, "_j2m_coop", False):
+        return
+    threading.Lock = lambda: CoopLock(_REAL_LOCK())
+    threading.RLock = lambda *a, **k: CoopLock(_REAL_RLOCK(*a, **k))
+    threading._j2m_coop = True
+
+
 TARGET_FUNCS = {"__enter__", "__exit__", "inject", "convert_field_name", "convert_class_name", "to_typing_code"}
 
 
@@ -34,14 +113,15 @@ class Baton:
         self.first = None
         self.prefix = loader.pkg_dir() + "/"
         self.opcode_file = self.prefix + "dynamic_typing/models_meta.py"
-        self.sems = [threading.Semaphore(0) for _ in range(n)]
+        self.sems = [_RawSem() for _ in range(n)]
+        self.idents = {}  # thread ident -> index
         self.done = [False] * n
         self.started = [False] * n
         self.current = None
         self.step = 0
         self.next_switch = None
         self.switches = []  # [step, from, to]
-        self.all_done = threading.Event()
+        self.all_done = _RawSem()
         self.max_steps = max_steps
         self.over_budget = False
         self.errors = []
@@ -155,7 +235,25 @@ class Baton:
         return glob
 
     # ---- running ---------------------------------------------------------------------------------------------
+    def index_of_current(self):
+        return self.idents.get(_thread.get_ident())
+
+    def yield_blocked(self, me, owner):
+        """Called by a cooperative lock when baton thread `me` cannot take a lock.  Passes the baton (to the owner if
+        it is a runnable simulated thread, else to the lowest-numbered runnable one - a deterministic rule, so that
+        replay needs no record of it).  Returns False if no other simulated thread can run."""
+        others = [i for i in range(self.n) if i != me and not self.done[i]]
+        if not others:
+            return False
+        to = owner if owner in others else others[0]
+        self.probe["blocked_on_lock_yields"] = self.probe.get("blocked_on_lock_yields", 0) + 1
+        self.current = to
+        self.sems[to].release()
+        self.sems[me].acquire()
+        return True
+
     def _thread_main(self, me, fn, results):
+        self.idents[_thread.get_ident()] = me
         self.sems[me].acquire()
         self.started[me] = True
         sys.settrace(self._make_tracer(me))
@@ -182,9 +280,17 @@ class Baton:
                 self.current = to
                 self.sems[to].release()
             else:
-                self.all_done.set()
+                self.all_done.release()
 
     def run(self, fns, first=None, timeout=120):
+        global ACTIVE
+        ACTIVE = self
+        try:
+            return self._run(fns, first, timeout)
+        finally:
+            ACTIVE = None
+
+    def _run(self, fns, first, timeout):
         results = [None] * self.n
         threads = [threading.Thread(target=self._thread_main, args=(i, fn, results), daemon=True)
                    for i, fn in enumerate(fns)]
@@ -198,7 +304,8 @@ class Baton:
         self._draw_gap()
         self.current = first
         self.sems[first].release()
-        if not self.all_done.wait(timeout):
+        # wait for the last thread (raw lock with a deadline)
+        if not self.all_done._l.acquire(True, timeout):
             raise RuntimeError("baton: threads did not finish (deadlock or timeout)")
         for t in threads:
             t.join(5)
